@@ -122,7 +122,7 @@ pub fn run_gt(a: &Args, out: &mut Out) {
         let g = pairing(G1::one(), G2::one());
         let sg = g.to_slice();
         for (i, v) in canon_patterns(&r_modulus()).iter().enumerate() {
-            if a.tier != "thorough" && (i as u64 + a.seed) % 4 != 0 { continue; }
+            if a.tier != "thorough" && (i as u64 + a.seed % 1000003) % 4 != 0 { continue; }
             let s = Fr::from_slice(v).unwrap();
             out.call("gt.pow", json!({"a": b(&sg), "k": b(&s.to_slice())}), || outs! {"out" => b(&g.pow(s).to_slice())});
         }
@@ -132,13 +132,13 @@ pub fn run_gt(a: &Args, out: &mut Out) {
         let g = pairing(G1::one(), G2::one());
         let sg = g.to_slice();
         for (i, pr) in pool.hpairs.iter().chain(pool.qpairs.iter().step_by(9)).enumerate() {
-            if a.tier != "thorough" && (i as u64 + a.seed) % 3 != 0 { continue; }
+            if a.tier != "thorough" && (i as u64 + a.seed % 1000003) % 3 != 0 { continue; }
             let (s, t) = (Fr::from_slice(&pr.0).unwrap(), Fr::from_slice(&pr.1).unwrap());
             out.call("gt.laws", json!({"g": b(&sg), "h": b(&sg), "s": b(&s.to_slice()), "t": b(&t.to_slice())}), || gt_laws_outs(g, g, s, t));
         }
         // exponents from the conversion family (their bytes -> Montgomery form conversion has prescribed quotient digits)
         for (i, v) in pool.cvt.iter().enumerate() {
-            if a.tier != "thorough" && (i as u64 + a.seed) % 5 != 0 { continue; }
+            if a.tier != "thorough" && (i as u64 + a.seed % 1000003) % 5 != 0 { continue; }
             if let Some(s) = Fr::from_slice(v) {
                 out.call("gt.pow", json!({"a": b(&sg), "k": b(v)}), || outs! {"out" => b(&g.pow(s).to_slice())});
             }
@@ -280,7 +280,7 @@ pub fn run_pairing(a: &Args, out: &mut Out) {
         let mut done = 0;
         for xi in 0u8..60 {
             if done >= (if a.tier == "thorough" { 40 } else { 8 }) { break; }
-            if (xi as u64 + a.seed) % 3 != 0 { continue; }
+            if (xi as u64 + a.seed % 1000003) % 3 != 0 { continue; }
             let mut v = vec![2u8 + (xi & 1)];
             let mut x = [0u8; 32];
             x[31] = xi;
@@ -339,7 +339,7 @@ pub fn run_pairing(a: &Args, out: &mut Out) {
             qn.normalize();
             // G1: every value (the Fq inversion sees z itself); G2: a third of them (its inversion sees the norm of z)
             pair_ev(out, ENTRY[i % 3], g1_scale(pn, l), qn, ka, kb, false);
-            if a.tier == "thorough" || (i as u64 + a.seed) % 3 == 0 {
+            if a.tier == "thorough" || (i as u64 + a.seed % 1000003) % 3 == 0 {
                 let lz = if i % 2 == 0 { Fq2::new(l, Fq::zero()) } else { Fq2::new(Fq::zero(), l) };
                 pair_ev(out, ENTRY[(i / 3) % 3], pn, g2_scale(qn, lz), ka, kb, false);
             }
